@@ -41,22 +41,58 @@ namespace
                 return;
             }
             ++c.other_leaf_calls;
+            // Leaves the detector does not read today. Should it start to, it meets what real machines answer: an identification leaf with one of the
+            // real vendor strings and a plausible maximum leaf, the vendor's rule for leaves beyond that maximum (Intel: the data of the highest basic
+            // leaf, AMD: zeros), and for everything else per-machine stable contents (all zero on some machines, arbitrary bits on others).
+            static const uint32_t VENDOR[4][3] = { { 0x756e6547, 0x49656e69, 0x6c65746e },   // GenuineIntel (ebx, edx, ecx)
+                                                   { 0x68747541, 0x69746e65, 0x444d4163 },   // AuthenticAMD
+                                                   { 0x6f677948, 0x6e65476e, 0x656e6975 },   // HygonGenuine
+                                                   { 0x20202020, 0x20202020, 0x20202020 } }; // a hypervisor's blank vendor
+            static const uint32_t MAXLEAF[8] = { 0x1b, 0x24, 0x0d, 0x07, 0x29, 0x1f, 0x01, 0x16 };
+            static const uint32_t MAXEXT[4] = { 0x80000008u, 0x8000001fu, 0x80000001u, 0x80000000u };
+            const uint64_t j = c.cfg.junk;
+            const unsigned vendor = (unsigned)(j & 3), maxleaf = MAXLEAF[(j >> 2) & 7], maxext = MAXEXT[(j >> 5) & 3];
+            const bool zero_filled = (j >> 7) & 1;
             if (ulevel == 0)
             {
-                reg[0] = 0x1b; // max basic leaf
-                reg[1] = 0x756e6547; // "Genu"
-                reg[3] = 0x49656e69; // "ineI"
-                reg[2] = 0x6c65746e; // "ntel"
+                reg[0] = (int)maxleaf;
+                reg[1] = (int)VENDOR[vendor][0];
+                reg[3] = (int)VENDOR[vendor][1];
+                reg[2] = (int)VENDOR[vendor][2];
                 return;
             }
             if (ulevel == 0x80000000u)
             {
-                reg[0] = (int)0x80000008u;
-                reg[1] = reg[2] = reg[3] = 0;
+                reg[0] = (int)maxext;
+                reg[1] = (int)VENDOR[vendor][0];
+                reg[3] = (int)VENDOR[vendor][1];
+                reg[2] = (int)VENDOR[vendor][2];
                 return;
             }
-            // stable junk for any leaf outside the four
-            uint64_t s = c.cfg.junk ^ ((uint64_t)ulevel << 32) ^ (uint32_t)count;
+            unsigned eff = ulevel;
+            const bool basic = ulevel < 0x40000000u, ext = ulevel >= 0x80000000u;
+            if ((basic && ulevel > maxleaf) || (ext && ulevel > maxext))
+            {
+                if (vendor != 0 || ext)
+                {
+                    reg[0] = reg[1] = reg[2] = reg[3] = 0; // AMD-style: reserved leaves read as zero
+                    return;
+                }
+                eff = maxleaf; // Intel-style: the data of the highest basic leaf
+                if (eff == 1 || eff == 7)
+                {
+                    const uint32_t* r = eff == 1 ? c.cfg.leaf[L1] : c.cfg.leaf[L7_0];
+                    for (int i = 0; i < 4; ++i)
+                        reg[i] = (int)r[i];
+                    return;
+                }
+            }
+            if (zero_filled && j != 0)
+            {
+                reg[0] = reg[1] = reg[2] = reg[3] = 0;
+                return;
+            }
+            uint64_t s = j ^ ((uint64_t)eff << 32) ^ (uint32_t)(eff == ulevel ? count : 0);
             for (int i = 0; i < 4; ++i)
                 reg[i] = (int)(uint32_t)sim::splitmix64(s);
         }
@@ -205,7 +241,7 @@ namespace
         cl_disp_twice("clause", "5_second_invocation_of_a_kept_dispatcher_judged"), cl_disp_misc("clause", "5_other_call_shapes_judged(void_no_argument,five_mixed_arguments)");
     Counter p_closed("probe", "closed_configurations"), p_nonclosed("probe", "non_closed_configurations"), p_bits_no_state("probe", "arch_with_bits_but_os_state_disabled"),
         p_fall5("probe", "dispatch_fell_through_5_or_more"), p_last("probe", "dispatch_chose_last_member"), p_underreport("info", "bits_and_state_present_but_not_reported(permitted:the_property_says_only_if)"),
-        p_reboot_changed("probe", "reboot_changed_report"), p_osx_off("probe", "boots_with_osxsave_off"), p_other_leaf("info", "detector_asked_leaf_outside_the_four(would_be_served_stable_junk)");
+        p_reboot_changed("probe", "reboot_changed_report"), p_osx_off("probe", "boots_with_osxsave_off"), p_other_leaf("info", "detector_asked_leaf_outside_the_four(served_realistic_identification_and_per-machine_contents)");
 
     sim::DistinctSet d_cfg_report("cfg_report_pairs"), d_nontrivial("nontrivial_cfg_projections"), d_disp("dispatch_paths");
 
